@@ -2,6 +2,8 @@ import LncModel.Basic
 import LncModel.GbnCodec
 import LncModel.MsgData
 import LncModel.Facts.Generated
+import LncModel.Queue
+import LncModel.TraceCheck
 /-
   Line-protocol driver: one operation per input line, one canonical result per
   output line.  Imports model files only (no Mathlib, no proofs) so it links as
@@ -33,7 +35,7 @@ def parseU8 (s : String) : Option UInt8 :=
   | some n => if n < 256 then some (UInt8.ofNat n) else none
   | none => none
 
-def step (toks : List String) : String :=
+def pureStep (toks : List String) : String :=
   match toks with
   | ["gbn.deser", hex] =>
     match bytesOfHex hex with
@@ -57,17 +59,108 @@ def step (toks : List String) : String :=
     | some rv, some rp, some b =>
       showOutcome (fun m => s!"{m.version} {hexOrDash m.payload}") (MsgData.deserializeInto ⟨rv, rp⟩ b)
     | _, _, _ => "bad-op"
+  | ["q.size", s, b, t] =>
+    match s.toNat?, b.toNat?, t.toNat? with
+    | some s, some b, some t => toString (Queue.size ⟨s, b, t⟩)
+    | _, _, _ => "bad-op"
+  | ["q.contains", b, t, q] =>
+    match b.toNat?, t.toNat?, q.toNat? with
+    | some b, some t, some q => showBool (containsSequence b t q)
+    | _, _, _ => "bad-op"
+  | ["q.add", s, b, t] =>
+    match s.toNat?, b.toNat?, t.toNat? with
+    | some s, some b, some t =>
+      showOutcome (fun (r : Queue × Nat) => s!"{r.1.base} {r.1.top} {r.2}") (Queue.addPacket ⟨s, b, t⟩)
+    | _, _, _ => "bad-op"
+  | ["q.ack", s, b, t, q] =>
+    match s.toNat?, b.toNat?, t.toNat?, q.toNat? with
+    | some s, some b, some t, some q =>
+      showOutcome (fun (r : Queue × Bool) => s!"{r.1.base} {r.1.top} {showBool r.2}") (Queue.processACK ⟨s, b, t⟩ q)
+    | _, _, _, _ => "bad-op"
+  | ["q.nack", s, b, t, q] =>
+    match s.toNat?, b.toNat?, t.toNat?, q.toNat? with
+    | some s, some b, some t, some q =>
+      let r := Queue.processNACK ⟨s, b, t⟩ q
+      s!"ok {r.1.base} {r.1.top} {showBool r.2.1} {showBool r.2.2}"
+    | _, _, _, _ => "bad-op"
+  | ["q.resend", s, b, t] =>
+    match s.toNat?, b.toNat?, t.toNat? with
+    | some s, some b, some t =>
+      showOutcome (fun (l : List Nat) => " ".intercalate (l.map toString)) (resendSeqs s (s + 2) b t)
+    | _, _, _ => "bad-op"
+  | ["q.syncer", s, t] =>
+    match s.toNat?, t.toNat? with
+    | some s, some t => showOutcome (fun (r : Nat × Nat) => s!"{r.1} {r.2}") (syncerExpect s t)
+    | _, _ => "bad-op"
+  | ["q.mks", n] => (n.toNat?).elim "bad-op" fun n => toString (mkS n)
   | _ => "bad-op"
 
-partial def loop (hin hout : IO.FS.Stream) : IO Unit := do
+
+structure DState where
+  dirs : Array Dir := #[Dir.init 1, Dir.init 1]
+  failed : Bool := false
+
+def parseReaction (s : String) : Option Reaction :=
+  match s.splitOn ":" with
+  | ["none"] => some .none
+  | ["lost"] => some .lost
+  | ["ack", a, c] => do some (.ack (← a.toNat?) (← c.toNat?))
+  | ["nack", a, c] => do some (.nack (← a.toNat?) (← c.toNat?))
+  | _ => none
+
+def parseMsgs (s : String) : Option (List Bytes) :=
+  if s = "none" then some [] else (s.splitOn ",").mapM bytesOfHex
+
+def uniApply (st : DState) (dir : Nat) (f : Dir → Except String Dir) : DState × String :=
+  if st.failed then (st, "ok") else
+  match st.dirs[dir]? with
+  | none => (st, "bad-op")
+  | some d =>
+    match f d with
+    | .ok d' => ({ st with dirs := st.dirs.set! dir d' }, "ok")
+    | .error e => ({ st with failed := true }, "FAIL " ++ e)
+
+def step (st : DState) (toks : List String) : DState × String :=
+  match toks with
+  | ["uni.init", n] =>
+    match n.toNat? with
+    | some n => ({ dirs := #[Dir.init n, Dir.init n], failed := false }, "ok")
+    | none => (st, "bad-op")
+  | ["uni.emitD", dir, seq, f, p, hex, copies] =>
+    match dir.toNat?, seq.toNat?, parseBool f, parseBool p, bytesOfHex hex, copies.toNat? with
+    | some dir, some seq, some f, some p, some pl, some c =>
+      uniApply st dir fun d => d.emitD seq ⟨pl, f, p⟩ c
+    | _, _, _, _, _, _ => (st, "bad-op")
+  | ["uni.delivD", dir, seq, f, p, hex, react] =>
+    match dir.toNat?, seq.toNat?, parseBool f, parseBool p, bytesOfHex hex, parseReaction react with
+    | some dir, some seq, some f, some p, some pl, some r =>
+      uniApply st dir fun d => d.delivD seq ⟨pl, f, p⟩ r
+    | _, _, _, _, _, _ => (st, "bad-op")
+  | ["uni.delivR", dir, kind, seq, processed] =>
+    match dir.toNat?, (if kind = "ack" then some RKind.ack else if kind = "nack" then some RKind.nack else none),
+          seq.toNat?, parseBool processed with
+    | some dir, some k, some seq, some pr => uniApply st dir fun d => d.delivR k seq pr
+    | _, _, _, _ => (st, "bad-op")
+  | ["uni.recvd", dir, msgs] =>
+    match dir.toNat?, parseMsgs msgs with
+    | some dir, some ms =>
+      uniApply st dir fun d =>
+        let model := reassembleOut d.σ.out []
+        if ms.isPrefixOf model then .ok d
+        else .error s!"Recv results ({ms.length}) are not a prefix of the model's delivered messages ({model.length})"
+    | _, _ => (st, "bad-op")
+  | _ => (st, pureStep toks)
+
+partial def loop (hin hout : IO.FS.Stream) (st : DState) : IO Unit := do
   let line ← hin.getLine
   if line.isEmpty then return ()
   let toks := (line.trimAscii.toString.splitOn " ").filter (· ≠ "")
-  hout.putStrLn (step toks)
-  loop hin hout
+  let (st', out) := step st toks
+  hout.putStrLn out
+  loop hin hout st'
 
 def main : IO Unit := do
   let hin ← IO.getStdin
   let hout ← IO.getStdout
-  loop hin hout
+  loop hin hout {}
   hout.flush
